@@ -129,11 +129,14 @@ def gc_trace(ctx, which):
 
 
 def check_C06(ctx):
+    exec_after_gc = True
     ctx.rule = ("design: Walrus.tla with the GC worklist of passes/used.rs over Families.tla, invariants NoPanic, OutputIsIso, GcExact (used = Reach); "
                 "implementation: parse;gc;emit on concretised families, fixtures, real-world fixture and generated modules (a third of them with extra roots "
                 "contributed by a typed custom section); TLC recomputes Reach declaratively and requires out valid, Iso on the kept part, exports equal, "
                 "nothing reachable dropped. A case is one module; non-trivial = the pass removed something.")
     gc_trace(ctx, "C06")
+    # behavioural half: the Exec.tla oracle on parse;gc;emit (a failing instantiation of the original is not compared)
+    exec_oracle(ctx, 1, 300 if ctx.quick() else 20000, 4 if ctx.quick() else 16)
 
 
 def check_C07(ctx):
@@ -317,7 +320,7 @@ def edit_histories(ctx, which, quick_n):
     the harness replays them through the public API; Trace_Edits.tla validates every call and the closing emits."""
     q = ctx.quick()
     fams = fam_inputs(ctx, ["calls", "globals", "tables", "memories"])
-    inputs = "%s,gen:%d:small" % (fams, 60 if q else 600)
+    inputs = "dupimp:%d,%s,gen:%d:small" % (12 if q else 100, fams, 60 if q else 600)
     nsample = quick_n if q else quick_n * 8
     inits = os.path.join(ctx.work, "edit_inits.ndjson")
     wv(["edit-inits", "inputs=" + inputs, "seed=%d" % ctx.seed, "sample=%d" % nsample, "out=" + inits])
@@ -630,3 +633,57 @@ def check_C10(ctx):
         ctx.sample({"id": c["id"], "in_subs": c["in_subs"][:3], "out_subs": c["out_subs"][:3], "in_rows": [(r["addr"], r["fi"], r["k"]) for r in c["in_rows"][:6]], "out_rows": [(r["addr"], r["fi"], r["k"]) for r in c["out_rows"][:6]]})
     ctx.assumptions += ["gimli 0.26 writes and reads the synthesized DWARF faithfully", "low_pc of a subprogram is taken to be the start of the function's code-section entry (its size field), which is the convention walrus's own address tables use",
                         "v5 rows naming file 0 are not synthesized (gimli::write does not emit them)"]
+
+
+def exec_oracle(ctx, gc, n, shards):
+    """Differential execution in TLA+: Exec.tla runs the module before and after walrus and compares observations."""
+    trace = os.path.join(ctx.work, "exec%d.ndjson" % gc)
+    for f in os.listdir(ctx.work):
+        if f.startswith("exec%d.ndjson" % gc):
+            os.remove(os.path.join(ctx.work, f))
+    out = wv(["trace-exec", "inputs=gen:%d:exec,fixtures" % n, "gc=%d" % gc, "seed=%d" % ctx.seed, "out=" + trace, "shards=%d" % shards])
+    ctx.notes.setdefault("harness", []).append(out.strip().splitlines()[-1])
+    allc = []
+    from concurrent.futures import ThreadPoolExecutor
+
+    def one(k):
+        path = "%s.%d" % (trace, k)
+        if not os.path.exists(path) or os.path.getsize(path) == 0:
+            return None
+        return path, tlc("Exec", cfg="Trace_Exec", workers=4, tracefile=path, timeout=3000, cont=True, name="exec-%d-%d" % (gc, k), xmx="6g")
+
+    with ThreadPoolExecutor(max_workers=4) as ex:
+        results = [r for r in ex.map(one, range(shards)) if r]
+    for path, r in results:
+        cases = read_ndjson(path)
+        allc += cases
+        ctx.add_mc(r, "exec:" + os.path.basename(path))
+        ctx.traces += len(cases)
+        ctx.evaluations += len(cases)
+        by_id = {c["id"]: c for c in cases}
+        for rej in r.rejects:
+            c = by_id.get(str(rej[0]), {})
+            ctx.report(rej[0], rej[1], rej[2:], {"source": c.get("source"), "calls": c.get("calls")})
+    bad = read_ndjson(trace + ".bad") if os.path.exists(trace + ".bad") and os.path.getsize(trace + ".bad") else []
+    for c in bad:
+        ctx.evaluations += 1
+        ctx.report(c["id"], "outcome", c["outcome"], {"source": c["source"]})
+    ctx.notes["calls_executed"] = ctx.notes.get("calls_executed", 0) + sum(len(c["calls"]) for c in allc)
+    for c in allc[:1] + allc[-1:]:
+        ctx.sample({"id": c["id"], "calls": c["calls"][:4], "functions": len(c["inp"]["funcs"]), "first_body": json.dumps(next((f["body"] for f in c["inp"]["funcs"] if not f["imported"]), []))[:300]})
+    return allc
+
+
+def check_C01(ctx):
+    ctx.rule = ("Exec.tla: a small-step semantics (one TLC state per executed instruction) of an i32 subset with locals, globals, structured control, br/br_if/br_table, calls, call_indirect, "
+                "byte and word loads/stores on several memories, host calls, instantiation with active segments and start function. For every generated module of the subset (and every fixture "
+                "in it) TLC instantiates and runs the input and the round-tripped output over the same call sequence on one instance (every exported function twice) and compares instantiation "
+                "outcome, results/traps, host-call trace and exported globals, memories and tables. Outside the subset C01 rests on C03 (every operator, operand and immediate preserved) and "
+                "C04 (structure preserved). A case is one module with its call sequence.")
+    q = ctx.quick()
+    cfg = write_cfg("MC_Body_gen", "SPECIFICATION BSpec\nCONSTANTS\n  MaxLen = %d\n  MaxDepth = 3\nINVARIANTS\n  EmittedMatches\n  EmittedBalanced\nCHECK_DEADLOCK FALSE\n" % (5 if q else 6))
+    model_check(ctx, "Body", cfg=cfg, workers=8, label="design-body (elision is order preserving)")
+    exec_oracle(ctx, 0, 600 if q else 30000, 4 if q else 16)
+    ctx.assumptions += ["values live in Z/2^15 and memory words are folded into that range: the two programs run under the same semantics, which is what a differential oracle needs",
+                        "floating point, SIMD, atomics, 64-bit arithmetic, reference instructions are not executed; for them C01 follows from C03 and C04",
+                        "function identity across the round trip (table contents, host-call names) is read off walrus's own index maps"]
